@@ -215,6 +215,21 @@ def step (lmtp : Bool) (m : M) (o : Obs) : M × List String :=
       let seen := if o.extra == "" then [] else (o.extra.splitOn "+").map bytesOfHex
       let i0 := (ls.findIdx? (fun l => "AUTH ".b.isPrefixOf l)).getD ls.length      -- an EHLO may precede the AUTH line
       authFaithful (steps.length + 1) 0 (ls.drop i0) (chunksAll.drop i0) seen steps ++
+      -- what the scripted mechanism answered in the `Next` calls that were made (a script that has run out answers
+      -- with the empty response): nothing else may be sent as a response, nothing twice
+      let stepAt (i : Nat) : Option (Option Bytes) := (steps[i]?).getD (some (some []))
+      let produced := (List.range seen.length).filterMap fun i =>
+        match stepAt i with | some (some r) => some (Server.b64Encode r) | _ => none
+      let respLines := (ls.drop (i0 + 1)).filter (· != [42])
+      (if respLines.isPrefixOf produced then []
+       else ["C09 the client sent a response line that its mechanism did not produce for that step"]) ++
+      (if (List.range seen.length).any (fun i => stepAt i == none) then
+         (if ls.contains [42] then [] else ["C09 a client mechanism error did not cancel the exchange with '*'"]) ++
+         (if o.res == "nil" then ["C09 Auth reports success although its mechanism failed"] else [])
+       else []) ++
+      (if o.res == "nil" && !steps.contains (some none) && i0 < ls.length &&
+           !(chunksAll.drop i0).any (fun c => "235".b.isPrefixOf c)
+       then ["C09 Auth reports success although the server never sent 235"] else []) ++
       let starIdx := ls.findIdx? (· == [42])
       match starIdx with
       | none => if steps.contains none && o.res == "err" && ls.length > 0 then [] else []
